@@ -132,30 +132,38 @@ def accept (s : Mem) (issuer : Bytes) (seq : Int) (expires : Nat) (cap : Option 
     { issuer := issuer, seqNo := seq, expires := expires, capacity := cap.getD 0, verified := verified }
   { s with ticket := tr, disk := { ticket := tr, binding := s.binding } }
 
+/-- step 5/6 shared by both entry points:
+    `if ticket.seq_no <= current_seq { return Err(TicketSequence{..}) }`, else the update `acc` -/
+def seqGate (a : Arith) (s : Mem) (seq : Int) (acc : Mem) : Mem × Out :=
+  if seq ≤ s.ticket.seqNo then (s, seqReject a s.ticket.seqNo seq)
+  else (acc, { res := .ok, wrote := true })
+
 /-- `Memvid::apply_ticket` -/
 def applyTicket (a : Arith) (s : Mem) (t : Ticket) : Mem × Out :=
-  let cur := s.ticket.seqNo
-  if t.seqNo ≤ cur then (s, seqReject a cur t.seqNo)
-  else (accept s t.issuer t.seqNo t.expires t.capacity false, { res := .ok, wrote := true })
+  seqGate a s t.seqNo (accept s t.issuer t.seqNo t.expires t.capacity false)
 
-/-- `Memvid::apply_signed_ticket` (steps 1–6 in source order) -/
-def applySignedTicket {Key : Type} (P : Params Key) (a : Arith) (s : Mem) (t : SignedTicket) :
-    Mem × Out :=
+/-- steps 1–4 of `apply_signed_ticket` in source order: the first check that fails, if any
+    (1 key parses, 2 memory bound, 3 memory id equal, 4 `verify_ticket_signature`: 64 bytes, then
+    `verify_strict` over the payload of the ticket's own fields) -/
+def signedCheck {Key : Type} (P : Params Key) (s : Mem) (t : SignedTicket) : Option SigReason :=
   match P.key with
-  | none => (s, { res := .err (.signature .badKey), wrote := false })
+  | none => some .badKey
   | some pk =>
     match s.binding with
-    | none => (s, { res := .err (.signature .unbound), wrote := false })
+    | none => some .unbound
     | some id =>
-      if t.memoryId ≠ id then (s, { res := .err (.signature .memoryId), wrote := false })
-      else if t.signature.length ≠ Mv.Gen.C25.SIGNATURE_LEN then
-        (s, { res := .err (.signature .sigLength), wrote := false })
+      if t.memoryId ≠ id then some .memoryId
+      else if t.signature.length ≠ Mv.Gen.C25.SIGNATURE_LEN then some .sigLength
       else if P.sigVerify pk (P.msg t.memoryId t.issuer t.seqNo t.expires t.capacity) t.signature = false then
-        (s, { res := .err (.signature .mismatch), wrote := false })
-      else
-        let cur := s.ticket.seqNo
-        if t.seqNo ≤ cur then (s, seqReject a cur t.seqNo)
-        else (accept s t.issuer t.seqNo t.expires t.capacity true, { res := .ok, wrote := true })
+        some .mismatch
+      else none
+
+/-- `Memvid::apply_signed_ticket` -/
+def applySignedTicket {Key : Type} (P : Params Key) (a : Arith) (s : Mem) (t : SignedTicket) :
+    Mem × Out :=
+  match signedCheck P s t with
+  | some r => (s, { res := .err (.signature r), wrote := false })
+  | none => seqGate a s t.seqNo (accept s t.issuer t.seqNo t.expires t.capacity true)
 
 /-- `Memvid::set_memory_binding_only` (only the memory id of the binding is modelled) -/
 def setBindingOnly (s : Mem) (id : Bytes) : Mem × Out :=
